@@ -529,11 +529,12 @@ class World:
     """A real FileCache on a scratch directory, in sequential or controlled-parallel mode."""
 
     def __init__(self, size_bytes=2500, parallel=False, allow_missing=True, path=None, plan=None,
-                 prefix=(), api="object", evict_on_start=False, use_sched=None, relative=False):
+                 prefix=(), api="object", evict_on_start=False, use_sched=None, relative=False, name="lab"):
         patch_process()
         from ocean_science_utilities.filecache import cache_object
 
         self.cache_object = cache_object
+        self.name = name
         self.path = path or fresh_dir()
         self.abspath = os.path.abspath(self.path)
         if relative:
@@ -666,13 +667,13 @@ class World:
         else:
             from ocean_science_utilities.filecache import filecache as fc
 
-            fc._ACTIVE_FILE_CACHES.pop("lab", None)
+            fc._ACTIVE_FILE_CACHES.pop(self.name, None)
             fc.create_cache(
-                "lab", self.path, cache_size_GB=self.size_gb,
+                self.name, self.path, cache_size_GB=self.size_gb,
                 do_cache_eviction_on_startup=evict_on_start, download_in_parallel=self.parallel,
                 resources=[ScriptedResource(self), ScriptedResource(self, ALT_SCHEME)],
             )
-            self.cache = fc.get_cache("lab")
+            self.cache = fc.get_cache(self.name)
         self.cache.disable_progress_bar = True
         for name, fn in self.validators.items():
             self.cache.set_directive_function("validate", name, fn)
@@ -688,7 +689,7 @@ class World:
         else:
             from ocean_science_utilities.filecache import filecache as fc
 
-            paths = fc.filepaths(list(uris), "lab")
+            paths = fc.filepaths(list(uris), self.name)
         contacted = sorted(e[1] for e in self.log[start:] if e[0] == "download")
         return paths, contacted
 
@@ -698,7 +699,7 @@ class World:
         else:
             from ocean_science_utilities.filecache import filecache as fc
 
-            fc.delete_files(uri, "lab")
+            fc.delete_files(uri, self.name)
 
     def purge(self):
         if self.api == "object":
@@ -706,7 +707,7 @@ class World:
         else:
             from ocean_science_utilities.filecache import filecache as fc
 
-            fc.delete_cache("lab")
+            fc.delete_cache(self.name)
             self.open(False)
 
     def reopen(self, evict_on_start=False):
